@@ -412,7 +412,8 @@ S(id="RG.tail", props=["C10", "C14"], spec="rgtail.spec.c", harness="h_rg_tail",
   what="NO_RULES only when no rule was read; `$S : error $eof' is added iff no rule of the start symbol begins with `error'; the grammar is checked while still marked undefined, "
        "the code vector is built after the check, and undefined_p is cleared as the last action",
   assumes=["R6: the region is cut from yaep_read_grammar on every run", "debug output of the region is not modelled (printers replaced by empty contracts)"])
-S(id="RG.rule", props=["C10", "C12"], spec="rgrule.spec.c", harness="h_rg_rule", mode="B", dfcc=True, loops=True, n_loops=2, canaries=4, object_bits=10, enforce=["verif_rg_rule/rg_rule_c"],
+S(id="RG.rule", props=["C10", "C12"], spec="rgrule.spec.c", harness="h_rg_rule", mode="B", dfcc=True, loops=True, n_loops=2, canaries=4, object_bits=10,
+  cex={"prog": "rg_rule_cex", "vars": ["cex_rl", "cex_tl", "cex_anode", "cex_cost", "cex_has_tr"] + ["gh_tv[%dl]" % k for k in range(8)]}, enforce=["verif_rg_rule/rg_rule_c"],
   replace=["verif_error_exit/err_rule_c", "symb_find_by_repr/find_repr2_c", "symb_find_by_code/find_code2_c", "symb_add_nonterm/add_nonterm2_c", "symb_add_term/add_term2_c",
            "rule_new_start/rns_c", "rule_new_symb_add/rnsa_c", "rule_new_stop/rnstop_c"],
   bound="a rule has <= 8 right-hand side names and <= 8 translation numbers (facts about all entries of the two arrays are written out entry by entry); "
@@ -425,6 +426,17 @@ S(id="RG.rule", props=["C10", "C12"], spec="rgrule.spec.c", harness="h_rg_rule",
   assumes=["A7: symb_find_by_repr answers NULL or a symbol of the table (arbitrary which); negative codes are never in the table (RG.prefix adds only codes >= 0)",
            "R7: the loop body is cut from yaep_read_grammar on every run; the loop header and the four statements before it (error symbol) are not covered by this set",
            "rule_new_start as proved by T.copy.rule, rule_new_symb_add / rule_new_stop by T.rule.add / T.rule.stop (restated without the storage)"])
+S(id="T.rule.add", props=["C12", "C10"], spec="symtab.spec.c", harness="h_rule_add", mode="L", canaries=2, enforce=["rule_new_symb_add/rule_add_c"],
+  replace=["_OS_expand_memory/os_expand_keep_c"], functions=["rule_new_symb_add"], params={"quick": {"CAP": 8, "RCAP": 3}, "thorough": {"CAP": 32, "RCAP": 6}}, mem=32, timeout=1500,
+  bound="the open array holds <= RCAP (3, thorough 6) symbols before the call; the function has no loop",
+  what="the open right-hand side array on top of the rule storage grows by one: the symbol replaces the end marker and a new end marker follows; everything that was in the array "
+       "stays, byte for byte (ghost byte), also when the array moves to a new segment; rhs points at it; rhs_len and n_rhs_lens go up by one; all writes stay inside the storage",
+  assumes=["the segment contract is the one proved by OS.expand, restated with a ghost byte of the top object"])
+S(id="T.rule.stop", props=["C12", "C10"], spec="symtab.spec.c", harness="h_rule_stop", mode="U", loops=True, n_loops=1, canaries=2, enforce=["rule_new_stop/rule_stop_c"],
+  replace=["_OS_expand_memory/os_expand_use_c"], functions=["rule_new_stop"], params={"quick": {"CAP": 8, "RCAP": 3}, "thorough": {"CAP": 32, "RCAP": 6}}, mem=32, timeout=1500,
+  what="the right-hand side array is finished where it is (not moved, not changed: ghost byte); the order array is a new object of rhs_len entries, all -1 (NULL for an empty "
+       "right-hand side), not overlapping the array; the top object of the rule storage is empty again",
+  assumes=["the segment contract is the one proved by OS.expand, restated for an empty top object", "array size capped by RCAP symbols (object size only; the loop is closed by its contract)"])
 S(id="T.copy.rule", props=["C13", "C12"], spec="symtab.spec.c", harness="h_rule_start", mode="L", canaries=2, enforce=["rule_new_start/rule_start_c"],
   replace=["_OS_add_string_function/os_add_string_use_c", "_OS_expand_memory/os_expand_use_c"], functions=["rule_new_start"], params={"quick": {"CAP": 8}, "thorough": {"CAP": 32}}, mem=48, timeout=1500,
   what="the rule record is linked into the rule list and its left-hand side's list; the abstract node name is a COPY inside the grammar's rule storage (different object, equal bytes), "
